@@ -233,7 +233,12 @@ def extract_texts():
         raise T1Error('generators.base.CPP_RUNTIME_NAMES not found')
     out['runtime_names'] = sorted(eval('frozenset(' + m.group(1) + ')', {'frozenset': frozenset}))   # noqa: S307 (a literal expression of the source)
     csrc = open(os.path.join(REPO, 'prophyc/generators/cpp.py')).read()
-    m = re.search(r'check_cpp_names\(nodes, generated=(r"[^"]*")\)', csrc)
+    for key, name in (('full_runtime_names', 'CPP_FULL_RUNTIME_NAMES'), ('full_member_names', 'CPP_FULL_MEMBER_NAMES'), ('raw_runtime_names', 'CPP_RAW_RUNTIME_NAMES')):
+        m = re.search(r'^%s = frozenset\((\[.*?\])\)' % name, bsrc, re.M | re.S)
+        if not m:
+            raise T1Error('generators.base.%s not found' % name)
+        out[key] = sorted(_ast.literal_eval(m.group(1)))
+    m = re.search(r'check_cpp_names\(nodes, generated=(r"[^"]*")[,)]', csrc)
     if not m:
         raise T1Error('CppGenerator.check_nodes: pattern of generated names not found')
     out['generated'] = _ast.literal_eval(m.group(1))
@@ -387,9 +392,17 @@ def includeDepthLimit : Nat := %d
 def cppRuntimeNames : List String := [%s]
 /-- the names the raw C++ generator invents inside the classes it writes (CppGenerator.check_nodes) -/
 def cppRawGeneratedNames : String := %s
+/-- generators.base.CPP_FULL_RUNTIME_NAMES (sorted): more names the full codec's sources use unqualified -/
+def cppFullRuntimeNames : List String := [%s]
+/-- generators.base.CPP_FULL_MEMBER_NAMES (sorted) -/
+def cppFullMemberNames : List String := [%s]
+/-- generators.base.CPP_RAW_RUNTIME_NAMES (sorted) -/
+def cppRawRuntimeNames : List String := [%s]
 
 end Prophy.Generated
-''' % (lean_str(texts['unwritable']), texts['depth'], ', '.join(lean_str(n) for n in texts['runtime_names']), lean_str(texts['generated']))
+''' % (lean_str(texts['unwritable']), texts['depth'], ', '.join(lean_str(n) for n in texts['runtime_names']), lean_str(texts['generated']),
+       ', '.join(lean_str(n) for n in texts['full_runtime_names']), ', '.join(lean_str(n) for n in texts['full_member_names']),
+       ', '.join(lean_str(n) for n in texts['raw_runtime_names']))
     if write_if_changed('Texts.lean', text):
         changed.append('Texts.lean')
     return {'changed': changed, 'tables': ['PyScalars', 'ProphycSizes', 'Precedence', 'CppPrinter', 'Ranges', 'Texts']}
